@@ -90,6 +90,9 @@ def c18_2(ctx):
         ctx.count(1)
         if h is None or not any(isinstance(r, ast.Return) and N(r.value) in ('copy(self.value)', 'self.value') for r in h.body):
             ctx.fail(f, last[-1], 'the fallback of try_value is not self.value')
+        elif any(isinstance(r, ast.Return) and N(r.value) == 'self.value' for r in h.body):
+            ctx.fail(f, h, 'the fallback object itself is returned (no copy): a mutable fallback such as the [] of try_list is shared between calls, so a caller who edits one result changes what the next failing call returns',
+                     witness='g = try_list(f); g(bad).append(1); g(bad) == [1]')
     f = ctx.repo.fn('_decorators:try_back.wrapped')
     _try_shape(ctx, f, None)
     t = [x for x in ast.walk(f.node) if isinstance(x, ast.Try)]
@@ -297,3 +300,34 @@ def c18_8(ctx):
         ctx.fail(g, g.node, '*args / **kwargs are not taken out of the callargs under their own names')
     if gd.get('c') != 'dict(%s)' % g.params[1]:
         ctx.fail(g, g.node, 'call_with_callargs pops from the caller\'s mapping instead of a copy')
+
+
+@obligation('C18.9', 'PATH (absent vs None)', '_loop:loops.wrapped, _loop:pd2np.wrapped',
+            'loops / pd2np on non-container input return what f returns for every way of passing the arguments: "the first argument was not supplied" must be decided by PRESENCE (no positional and name not in kwargs), '
+            'never by popping with a None default - f(a=None) is a supplied argument',
+            axioms=('A1',))
+def c18_9(ctx):
+    f = ctx.repo.fn('_loop:loops.wrapped')
+    ctx.count(1, f.where())
+    for c in calls_in(f.node, 'pop'):
+        if U(c.func.value) == 'kwargs' and c.args and (len(c.args) > 1 or c.keywords) and U(c.args[0]) in ('top', 'self.first'):
+            ctx.fail(f, enclosing_stmt(parent_map(f.node), c), 'the looped argument is popped with a default (`%s`) and absence is inferred from the value: an explicit None passed by keyword is swallowed and f runs without it (or with its default)' % U(c),
+                     witness='loops(f)(a = None)')
+    g = [s for s in f.body if isinstance(s, ast.If) and any(isinstance(r, ast.Return) and N(r.value) == NS('self.function(*args, **kwargs)') for r in s.body)]
+    if not ctx.findings:
+        if not g or N(g[0].test) not in (NS('len(args) == 0 and not top in kwargs'), NS('len(args) == 0 and top not in kwargs'), NS('not args and top not in kwargs')):
+            ctx.fail(f, g[0] if g else f.node, 'the "first argument not supplied" case is decided by `%s`, expected: no positional argument and the first parameter name not among the keywords' % (U(g[0].test) if g else '?'))
+    t = single_assign(f, 'top')
+    if t is not None and N(t) != 'self.first':
+        ctx.fail(f, f.node, 'the looped parameter is not the first parameter of the function')
+    fs = ctx.repo.fn('_loop:loops.first')
+    ctx.count(1, fs.where())
+    rr = returns_of(fs.node)
+    if not rr or N(rr[-1].value) != NS('args[0] if len(args) else None'):
+        ctx.fail(fs, fs.node, 'loops.first is not the first declared parameter')
+    p = ctx.repo.fn('_loop:pd2np.wrapped')
+    ctx.count(1, p.where())
+    rr = [r for r in returns_of(p.node)]
+    ok = any(isinstance(s, ast.If) and N(s.test) == NS('not is_pd(arg)') and any(isinstance(r, ast.Return) and 'self.function(*args_' in U(r.value) for r in s.body) for s in p.body)
+    if not ok:
+        ctx.fail(p, p.node, 'pd2np on non-pandas input no longer calls the function with the (int->float converted) arguments as given')
